@@ -139,3 +139,16 @@ def encryptParams(self: Obj("WARequest"), params: Opaque("params"), key: Opaque(
 def pubkey_len(k: Opaque):
     ensures(len(getter("ecpub.serialize", k)) == 33)
     trigger(getter("ecpub.serialize", k))
+
+
+# =====================================================================================================================
+# the parameter string: name=value pairs in the ORIGINAL order, joined by '&', every value percent-encoded, names as they are - also
+# when a name occurs twice (proved for lists of exactly three parameters: bounded in the NUMBER of parameters only; other lengths: bounded check)
+# =====================================================================================================================
+def pair(k, v):
+    return k + "=" + wa_urlencode(v)
+
+
+@contract(REQ, "WARequest.urlencodeParams", opaque_at_calls=True)
+def urlencodeParams(cls: ClassRef("WARequest"), params: ListOf(Tup(Str, Str), 3)) -> Str:
+    ensures(result == pair(params[0][0], params[0][1]) + "&" + pair(params[1][0], params[1][1]) + "&" + pair(params[2][0], params[2][1]))
